@@ -140,8 +140,9 @@ def _set(obj, path, val):
     obj[path[-1]] = val
 
 
-def shrink(mod, scn, oracle, budget_runs=250, budget_s=150):
-    """Greedy delta-debugging over the scenario; keeps a candidate iff the same oracle still fires."""
+def shrink(mod, scn, oracle, budget_runs=250, budget_s=150, keep=None):
+    """Greedy delta-debugging over the scenario; keeps a candidate iff the same oracle still fires (and `keep(candidate, violation)`
+    holds: the violation stays in the same class - not listed as a known finding, or the same known finding)."""
     t0 = time.time()
     runs = [0]
     spec = getattr(mod, "SHRINK", {})
@@ -161,7 +162,7 @@ def shrink(mod, scn, oracle, budget_runs=250, budget_s=150):
             return False
         finally:
             _disarm()
-        return any(v["oracle"] == oracle for v in r.get("violations", []))
+        return any(v["oracle"] == oracle and (keep is None or keep(s, v)) for v in r.get("violations", []))
 
     best = copy.deepcopy(scn)
     changed = True
@@ -446,9 +447,9 @@ def main(argv=None):
             scn = r["scenario"]
             nshr = 0
             if not a.no_shrink:
-                scn, nshr = shrink(mod, scn, oracle)
+                scn, nshr = shrink(mod, scn, oracle, keep=lambda s_, v_: classify(mod, s_, v_, known) is None)
             res = execute(mod, copy.deepcopy(scn))
-            vv = [v for v in res.get("violations", []) if v["oracle"] == oracle] or unk
+            vv = [v for v in res.get("violations", []) if v["oracle"] == oracle and classify(mod, scn, v, known) is None] or unk
             path = os.path.join(REPLAY_DIR, "%s-%d.json" % (mod.ID, r["seed"]))
             with open(path, "w") as f:
                 json.dump({"property": mod.ID, "seed": r["seed"], "verif_seed": a.seed, "index": r["index"],
